@@ -93,14 +93,15 @@ def parse_rewrite(arg):
     if not m:
         raise AssembleError(f'bad rewrite directive: {arg}')
     cnt = m.group(3)
-    return m.group(1), m.group(2), (None if cnt == '*' else int(cnt) if cnt else 1)
+    # default: at least one match (an exact count is only demanded when written as xN)
+    return m.group(1), m.group(2), ('*' if cnt == '*' else int(cnt) if cnt else None)
 
 
 def do_rewrite(text, rw, what, report):
     rx, repl, cnt = rw
     new, n = re.subn(rx, repl, text)
-    if cnt is not None and n != cnt:
-        raise AssembleError(f'rewrite /{rx}/ matched {n} times in {what}, expected {cnt} (anchor lost)')
+    if (cnt is None and n < 1) or (isinstance(cnt, int) and n != cnt):
+        raise AssembleError(f'rewrite /{rx}/ matched {n} times in {what}, expected {cnt if cnt is not None else ">= 1"} (anchor lost)')
     report.setdefault('rewrites', []).append({'regex': rx, 'repl': repl, 'count': n})
     return new
 
@@ -213,6 +214,16 @@ class Assembler:
                 self.process_template(os.path.join(TPL_DIR, inc))
                 i += 1
                 continue
+            if s.startswith('//@extractall '):
+                spec = s[len('//@extractall '):].strip()
+                block = []
+                i += 1
+                while i < len(lines) and lines[i].strip() != '//@end':
+                    block.append(lines[i].strip()[3:])
+                    i += 1
+                i += 1
+                self.extract_all(spec, block, (os.path.relpath(path, VERIF), i))
+                continue
             if s.startswith('//@extract '):
                 spec = s[len('//@extract '):].strip()
                 block = []
@@ -306,6 +317,35 @@ class Assembler:
             text = self.render_other(sf, it, opts, rep)
         self.report['items'].append(rep)
         self.emit(text, ('repo', rel, sf.line_of(it.sig_start)))
+
+    def extract_all(self, spec, block, tplpos):
+        """Render EVERY item of an impl block (so that an item added to the block --
+        e.g. an override of a trait default method -- becomes part of the verified
+        text instead of going unnoticed).  Option lines are prefixed with the item
+        they apply to:  `fn NAME: <option>`  /  `const NAME: <option>`; a spec block for
+        a fn starts with `fn NAME: spec:` and extends to the next prefixed line."""
+        rel, _, ipath = spec.partition(' :: ')
+        sf = self.sf(rel.strip())
+        try:
+            imp = sf.find(ipath.strip())
+        except ScanError as e:
+            raise AssembleError(str(e))
+        per = {}
+        cur = None
+        for raw in block:
+            m = re.match(r'\s*(fn|const|type) (\w+): ?(.*)$', raw)
+            if m:
+                cur = per.setdefault((m.group(1), m.group(2)), [])
+                cur.append('  ' + m.group(3))
+            elif cur is not None:
+                cur.append(raw)
+        for ch in imp.children:
+            if ch.kind not in ('fn', 'const', 'type'):
+                continue
+            lines = ['  novis'] + per.get((ch.kind, ch.name), [])
+            if ch.kind == 'const' and not per.get((ch.kind, ch.name)):
+                self.out.append(('    #[verifier::external_body]', ('tpl', tplpos[0], tplpos[1])))
+            self.extract(f'{rel.strip()} :: {ipath.strip()} :: {ch.kind} {ch.name}', lines, tplpos)
 
     def render_fn(self, sf, it, opts, rep):
         fp = fn_parts(sf, it)
